@@ -106,56 +106,46 @@ theorem msgOK_of_queue {s s' : State} (h : s'.queue = s.queue) (hs : MsgOK s) : 
   · left; intro m hm; rw [h] at hm; exact hs m hm
   · right; exact hs
 
-/-- the part of a main loop between the runahead release and the sweep (`workflow_shutdown`) touches neither the
-log nor the queue -/
-theorem shutdownBlock_keep (g : Graph) (s2 : State) :
-    let s3 := if s2.stopMode.isNone then
-        let (s, std) := stopTaskDone s2
-        if std then { s with stopMode := some "AUTOMATIC" }
-        else
-          let (s, auto) := checkAutoShutdown g s
-          if auto then { s with stopMode := some "AUTOMATIC" } else s
-      else s2
-    s3.expLog = s2.expLog ∧ s3.queue = s2.queue := by
-  intro s3
-  simp only [s3]
+/-- `workflow_shutdown` touches neither the log nor the queue -/
+theorem loopShutdown_keep (g : Graph) (s : State) :
+    (loopShutdown g s).expLog = s.expLog ∧ (loopShutdown g s).queue = s.queue := by
+  unfold loopShutdown
   split
-  · have h1 := expLog_stopTaskDone s2
-    have h1q := queue_stopTaskDone s2
-    generalize stopTaskDone s2 = R at h1 h1q
-    obtain ⟨sa, std⟩ := R
-    simp only at h1 h1q ⊢
+  · simp only
     split
-    · exact ⟨h1, h1q⟩
-    · have h2 := expLog_checkAutoShutdown g sa
-      have h2q := queue_checkAutoShutdown g sa
-      generalize checkAutoShutdown g sa = R2 at h2 h2q
-      obtain ⟨sb, auto⟩ := R2
-      simp only at h2 h2q ⊢
-      split
-      · exact ⟨h2.trans h1, h2q.trans h1q⟩
-      · exact ⟨h2.trans h1, h2q.trans h1q⟩
+    · exact ⟨expLog_stopTaskDone s, queue_stopTaskDone s⟩
+    · split
+      · exact ⟨(expLog_checkAutoShutdown g _).trans (expLog_stopTaskDone s),
+          (queue_checkAutoShutdown g _).trans (queue_stopTaskDone s)⟩
+      · exact ⟨(expLog_checkAutoShutdown g _).trans (expLog_stopTaskDone s),
+          (queue_checkAutoShutdown g _).trans (queue_stopTaskDone s)⟩
   · exact ⟨rfl, rfl⟩
+
+theorem loopHead_keep (g : Graph) (s : State) :
+    (loopHead g s).expLog = s.expLog ∧ (loopHead g s).queue = s.queue := by
+  unfold loopHead
+  have h := loopShutdown_keep g (releaseRunahead g (computeRunahead g s)).1
+  exact ⟨h.1.trans ((expLog_releaseRunahead g _).trans (expLog_computeRunahead g s false)),
+    h.2.trans ((queue_releaseRunahead g _).trans (queue_computeRunahead g s false))⟩
+
+theorem loopExpire_queue (g : Graph) (s : State) : (loopExpire g s).queue = s.queue := by
+  unfold loopExpire
+  exact (queue_clockExpireTasks g _).trans (queue_sweepQueue s)
+
+theorem goodLog_loopExpire (g : Graph) (s : State) (h : GoodLog s) : GoodLog (loopExpire g s) := by
+  unfold loopExpire
+  exact goodLog_clockExpireTasks g _ (goodLog_of_eq (expLog_sweepQueue s) h)
 
 theorem goodLog_mainLoop (g : Graph) (s : State) (h : GoodLog s) (hq : MsgOK s) : GoodLog (mainLoop g s) := by
   unfold mainLoop
   split
   · exact h
-  · extract_lets s1 s2 s3
-    have h2 : s2.expLog = s.expLog := by
-      simp only [s2, s1]; rw [expLog_releaseRunahead, expLog_computeRunahead]
-    have h2q : s2.queue = s.queue := by
-      simp only [s2, s1]; rw [queue_releaseRunahead, queue_computeRunahead]
-    have h3 := shutdownBlock_keep g s2
-    have h3e : s3.expLog = s.expLog := h3.1.trans h2
-    have h3q : s3.queue = s.queue := h3.2.trans h2q
+  · extract_lets s3 s5 s6
+    have h3 := loopHead_keep g s
     split
-    · exact goodLog_of_eq h3e h
-    · extract_lets s4 s5 s6 s7
-      have h4 : GoodLog s4 := goodLog_of_eq ((expLog_sweepQueue s3).trans h3e) h
-      have h4q : s4.queue = s.queue := (queue_sweepQueue s3).trans h3q
-      have h5 : GoodLog s5 := goodLog_clockExpireTasks g s4 h4
-      have h5q : s5.queue = s.queue := (queue_clockExpireTasks g s4).trans h4q
+    · exact goodLog_of_eq h3.1 h
+    · have h5 : GoodLog s5 := goodLog_loopExpire g s3 (goodLog_of_eq h3.1 h)
+      have h5q : s5.queue = s.queue := (loopExpire_queue g s3).trans h3.2
       have h6 : GoodLog s6 := by
         simp only [s6]; split
         · exact goodLog_of_eq (expLog_releaseAndSubmit s5) h5
@@ -164,8 +154,9 @@ theorem goodLog_mainLoop (g : Graph) (s : State) (h : GoodLog s) (hq : MsgOK s) 
         simp only [s6]; split
         · exact (queue_releaseAndSubmit s5).trans h5q
         · exact h5q
-      have h7 : GoodLog s7 := goodLog_of_eq (expLog_processQueue_ok g s6 (msgOK_of_queue h6q hq)) h6
-      exact goodLog_of_eq (expLog_finishLoop g s7) h7
+      have h7 : GoodLog (processQueue g s6) :=
+        goodLog_of_eq (expLog_processQueue_ok g s6 (msgOK_of_queue h6q hq)) h6
+      exact goodLog_of_eq (expLog_finishLoop g _) h7
 
 /-- **every op logs only good expiries** (the log is cleared when the op starts) -/
 theorem goodLog_step (g : Graph) (s : State) (op : Op) (hq : MsgOK s) : GoodLog (step g s op) := by
@@ -229,14 +220,10 @@ theorem queue_mainLoop_sub (g : Graph) (s : State) : ∀ m ∈ (mainLoop g s).qu
   unfold mainLoop
   split
   · exact fun m h => h
-  · extract_lets s1 s2 s3
-    have h2q : s2.queue = s.queue := by
-      simp only [s2, s1]; rw [queue_releaseRunahead, queue_computeRunahead]
-    have h3q : s3.queue = s.queue := (shutdownBlock_keep g s2).2.trans h2q
+  · extract_lets s3 s5 s6
     split
-    · intro m hm; exact h3q ▸ hm
-    · extract_lets s4 s5 s6 s7
-      intro m hm
+    · intro m hm; exact (loopHead_keep g s).2 ▸ hm
+    · intro m hm
       rw [queue_finishLoop, queue_processQueue_nil] at hm
       simp at hm
 
